@@ -114,6 +114,7 @@ fn gen_tree(rng: &mut Rng, parent: &Handle, depth: usize, budget: &mut usize) {
 fn ser(h: &Handle, scope: TraversalScope, scripting: bool) -> Result<String, String> {
     catch(|| {
         let mut out = Vec::new();
+        let scope2 = scope.clone();
         let sh: SerializableHandle = h.clone().into();
         serialize(&mut out, &sh, SerializeOpts { scripting_enabled: scripting, traversal_scope: scope.clone(), create_missing_parent: false }).expect("serialize");
         // the same serialization into a writer that accepts only a few bytes per call must give
@@ -126,11 +127,23 @@ fn ser(h: &Handle, scope: TraversalScope, scripting: bool) -> Result<String, Str
                 panic!("short-write writer: serializing into a writer that accepts a few bytes per write() call produced {} bytes, into a Vec {} bytes (first difference at byte {})", w.out.len(), out.len(), w.out.iter().zip(out.iter()).position(|(a, b)| a != b).unwrap_or(w.out.len().min(out.len())));
             }
         }
+        // create_missing_parent only matters for an invalid call sequence (an end without a start); a tree
+        // never produces one, so the option must not change a byte (one in four serializations, chosen by content)
+        if out.len() % 4 == 1 {
+            let mut out2 = Vec::new();
+            let sh2: SerializableHandle = h.clone().into();
+            serialize(&mut out2, &sh2, SerializeOpts { scripting_enabled: scripting, traversal_scope: scope2, create_missing_parent: true }).expect("serialize with create_missing_parent");
+            MISSING_PARENT_RUNS.with(|c| c.set(c.get() + 1));
+            if out2 != out {
+                panic!("create_missing_parent=true changed the serialization of a well-formed tree: {:?} vs {:?}", String::from_utf8_lossy(&out2), String::from_utf8_lossy(&out));
+            }
+        }
         String::from_utf8(out).expect("utf8")
     })
 }
 
 thread_local! {
+    static MISSING_PARENT_RUNS: std::cell::Cell<u64> = const { std::cell::Cell::new(0) };
     static CHOPPY_RUNS: std::cell::Cell<u64> = const { std::cell::Cell::new(0) };
 }
 
@@ -454,6 +467,7 @@ pub fn run(args: &Args) -> (Meta, Stats) {
             }
         }
         st.add("serializations_into_short_write_writer", CHOPPY_RUNS.with(|c| c.replace(0)));
+        st.add("serializations_repeated_with_create_missing_parent", MISSING_PARENT_RUNS.with(|c| c.replace(0)));
     });
     let mut m = super::meta(
         args,
